@@ -11,6 +11,7 @@ pub fn run(kind: &str, i: &Input) -> String {
         "vm_prog" => vm_prog(i),
         "crypto_roundtrip" => crypto_roundtrip(i),
         "vm_pex" => vm_pex(i),
+        "vm_eval" => vm_eval(i),
         "vm_compute" => vm_compute(i),
         "types_convert" => types_convert(i),
         "hash_addrs" => hash_addrs(i),
@@ -809,4 +810,15 @@ fn vm_pex(i: &Input) -> String {
         if !digests.contains(&f) { out += &format!("flipped_{k}={}\n", run(f)); }
     }
     out + "result=ok\n"
+}
+
+/// Vm::eval_ops of an empty program from a given stack: the boolean result comes from the final stack top
+fn vm_eval(i: &Input) -> String {
+    let mut vm = Vm::default();
+    vm.stack = Stack::try_from(words(get(i, "stack"))).expect("REPLAY-HARNESS: initial stack");
+    let ops = parse_ops(get(i, "ops"));
+    match vm.eval_ops(&ops, test_access(), &NoState, &|_: &Op| 1, GasLimit::UNLIMITED) {
+        Ok(b) => format!("result=ok\nvalue={b}\n"),
+        Err(e) => format!("result=err\nerr={}\n", format!("{e:?}").replace('\n', " ").chars().take(200).collect::<String>()),
+    }
 }
